@@ -80,10 +80,14 @@ impl UiTokenCollection {
 
     pub fn add_from_regex_match(&mut self, capture: Option<Match<'_>>, token_type: UiTokenType) {
         if let Some(content) = capture {
-            if content.start() < content.end() && self.check_collision(content.start(), content.end()) {
+            /* Tokens are stored with character positions, the collision must be checked with them too */
+            let start = self.get_position(content.start());
+            let end = self.get_position(content.end());
+
+            if start < end && self.check_collision(start, end) {
                 self.tokens.push(UiToken {
-                    start: self.get_position(content.start()),
-                    end: self.get_position(content.end()),
+                    start,
+                    end,
                     ui_type: token_type
                 });
             }
@@ -103,7 +107,8 @@ impl UiTokenCollection {
             Some(position) => *position,
             None => {
                 match self.char_sizes.len() == index {
-                    true => index,
+                    /* End of the text, character count is required instead of byte count */
+                    true => self.char_sizes.last().map_or(0, |position| *position + 1),
                     false => {
                         log::error!("{} not found in char map list, returned 0", index);
                         0
